@@ -4,11 +4,11 @@
 // of bind calls up to the bound is run in every order.
 #![allow(dead_code, unused_imports, unused_variables, unused_macros, unreachable_patterns)]
 // tracing macros (shim: logging has no bearing on the property)
-macro_rules! trace { ($($t:tt)*) => {}; }
-macro_rules! debug { ($($t:tt)*) => {}; }
-macro_rules! info { ($($t:tt)*) => {}; }
-macro_rules! warn { ($($t:tt)*) => {}; }
-macro_rules! error { ($($t:tt)*) => {}; }
+macro_rules! trace { ($($t:tt)*) => { () }; }
+macro_rules! debug { ($($t:tt)*) => { () }; }
+macro_rules! info { ($($t:tt)*) => { () }; }
+macro_rules! warn { ($($t:tt)*) => { () }; }
+macro_rules! error { ($($t:tt)*) => { () }; }
 use std::convert::Infallible;
 use std::net::{IpAddr, Ipv4Addr, Ipv6Addr, SocketAddr, SocketAddrV4, SocketAddrV6};
 use std::sync::Arc;
